@@ -668,6 +668,29 @@ class Gen(object):
             if pair and not bad and zero_init and By > 1:
                 self.samples(pair, "matmul_bw", [a, b, y, gy, ga, gb], [], "bw", By, "exact", grads=[(4, ba), (5, bb)])
 
+    def matmul_batch_cycle(self, i):
+        """Deterministic cycle over the batch patterns (B,1), (B,B), (1,B) x non-square operands (I, J, K pairwise different) of
+        matmul forward and backward with their per-sample companions: every pattern is met in every run."""
+        rng = self.rng
+        pats = [(2, 1), (3, 3), (1, 2), (3, 1), (2, 2), (1, 3)]
+        dimsets = [(2, 3, 4), (1, 4, 2), (3, 1, 2), (2, 2, 3), (4, 3, 1), (3, 2, 1)]
+        ba, bb = pats[i % len(pats)]
+        I, J, K = dimsets[(i // len(pats)) % len(dimsets)]
+        a = rtensor(rng, trim([I, J]), ba, "int", -3, 3)
+        b = rtensor(rng, trim([J, K]), bb, "int", -3, 3)
+        By = max(ba, bb)
+        pair = self.emit("matmul_fw %s %s" % (a.tok(), b.tok()), "exact", "fw", spec=spec_matmul(a, b))
+        if pair and By > 1:
+            self.samples(pair, "matmul_fw", [a, b], [], "fw", By, "exact")
+        yd = trim([I, K])
+        y = rtensor(rng, yd, By, "int", -2, 2)
+        gy = rtensor(rng, yd, By, "int", -3, 3)
+        ga = rtensor(rng, a.dims, a.batch, "int", -2, 2).zeros()
+        gb = rtensor(rng, b.dims, b.batch, "int", -2, 2).zeros()
+        pair = self.emit("matmul_bw %s %s %s %s %s %s" % (a.tok(), b.tok(), y.tok(), gy.tok(), ga.tok(), gb.tok()), "exact", "bw")
+        if pair and By > 1:
+            self.samples(pair, "matmul_bw", [a, b, y, gy, ga, gb], [], "bw", By, "exact", grads=[(4, ba), (5, bb)])
+
     def conv2d(self, boundary=False, batched=False):
         rng = self.rng
         H, Wd, C = rng.choice([1, 2, 3, 4, 5]), rng.choice([1, 2, 3, 4, 5]), rng.choice([1, 1, 2, 3])
@@ -1105,6 +1128,8 @@ def streams(rng, tier):
         g.pool(boundary=True)
     for i in range(12 if tier == "quick" else 36):
         g.conv_wrap(i if tier != "quick" else rng.randrange(36))
+    for i in range(12 if tier == "quick" else 36):
+        g.matmul_batch_cycle(i if tier != "quick" else 6 * rng.randrange(6) + i % 6)     # all six batch patterns in every run
     for i in range(24 if tier == "quick" else 300):
         g.conv2d(batched=True)
     quick = tier == "quick"
